@@ -30,6 +30,8 @@
 #include "verif_atomic.hpp"
 #include "verif_builtins.hpp"
 #define atomic verif_atomic
+#define atomic_flag verif_atomic_flag
+#define atomic_ref verif_atomic_ref
 #define atomic_thread_fence verif_atomic_thread_fence
 #define atomic_signal_fence verif_atomic_signal_fence
 #define __atomic_fetch_add(p, v, mo) vhooks::fetch_add(p, v, mo)
